@@ -1,8 +1,7 @@
 """Code related to formatting"""
 
-import io
+import ast
 import textwrap
-import tokenize
 from typing import Callable
 
 import black
@@ -69,34 +68,40 @@ def indentation_level(source: str) -> int:
 
 def _string_literal_ranges(source: str):
     """Character ranges of the string literals in source that span lines or contain tabs."""
-    # The lines that the tokenizer is given below, which its positions refer to
-    line_starts = [0]
-    for line in io.StringIO(source):
-        line_starts.append(line_starts[-1] + len(line))
+    # Positions are taken from the syntax tree. Those of the tokenizer cannot be relied on
+    # for strings of several lines with other than ascii characters in them.
+    from pyrefact import core  # pylint: disable=import-outside-toplevel
 
-    fstring_start = getattr(tokenize, "FSTRING_START", None)
-    fstring_end = getattr(tokenize, "FSTRING_END", None)
-    depth = 0
-    start = None
-    for token in tokenize.generate_tokens(io.StringIO(source).readline):
-        if token.type == tokenize.STRING and depth == 0:
-            start, end = token.start, token.end
-        elif fstring_start is not None and token.type == fstring_start:
-            depth += 1
-            if depth > 1:
-                continue
-            start = token.start
-            continue
-        elif fstring_end is not None and token.type == fstring_end:
-            depth -= 1
-            if depth > 0:
-                continue
-            end = token.end
+    try:
+        root = ast.parse(source)
+    except SyntaxError:
+        # Perhaps an indented piece of code, which is the body of something
+        header = "if True:\n"
+        if not source.lstrip("\n")[:1].isspace():
+            raise
+        for start_charno, end_charno in _string_literal_ranges(header + source):
+            yield start_charno - len(header), end_charno - len(header)
+        return
+
+    nodes = []
+    stack = [root]
+    while stack:
+        node = stack.pop()
+        if isinstance(node, ast.JoinedStr) or (
+            isinstance(node, ast.Constant) and isinstance(node.value, (str, bytes))
+        ):
+            nodes.append(node)  # What is inside of an f-string is part of it
         else:
-            continue
+            stack.extend(ast.iter_child_nodes(node))
 
-        start_charno = line_starts[start[0] - 1] + start[1]
-        end_charno = line_starts[end[0] - 1] + end[1]
+    line_starts = core._get_line_start_charnos(source)  # pylint: disable=protected-access
+    for node in sorted(nodes, key=lambda n: (n.lineno, n.col_offset)):
+        start_charno = core._get_charno(  # pylint: disable=protected-access
+            source, line_starts, node.lineno, node.col_offset
+        )
+        end_charno = core._get_charno(  # pylint: disable=protected-access
+            source, line_starts, node.end_lineno, node.end_col_offset
+        )
         text = source[start_charno:end_charno]
         if "\n" in text or "\t" in text or "\r" in text or "\f" in text:
             yield start_charno, end_charno
@@ -110,7 +115,7 @@ def outside_strings(func: Callable[[str], str], source: str) -> str:
     """
     try:
         ranges = list(_string_literal_ranges(source))
-    except (tokenize.TokenError, SyntaxError, IndentationError, ValueError):
+    except (SyntaxError, ValueError, RecursionError, MemoryError):
         return func(source)  # Not something that is going to be parsed, either
 
     if not ranges:
